@@ -1,5 +1,5 @@
 (* C09 — the hypotheses of the single-run theorems are satisfiable by non-trivial states. *)
-From Sdns Require Import Common.Base Gen.C09 C09.Model C09.Proofs_Maps C09.Proofs_Rev C09.Proofs_Step C09.Proofs_Refute C09.Proofs_Prov C09.Proofs_Thm C09.Proofs_Hist.
+From Sdns Require Import Common.Base Gen.C09 C09.Model C09.Proofs_Maps C09.Proofs_Rev C09.Proofs_Step C09.Proofs_Refute C09.Proofs_Prov C09.Proofs_Thm C09.Proofs_Hist C09.Proofs_Inv.
 Open Scope N_scope.
 
 Definition sA := s0 tag_inj.   (* A and B configured and Valid on disk *)
@@ -73,3 +73,15 @@ Example new_key_30d_collision_example :
   ~ In kB (s_live (exec tag_coll s0 coll_history)) /\
   snd (monitor tag_coll kB s0 coll_history (mk_mon None false false)) = mk_mon None false false.
 Proof. vm_compute. split; [intros [H|[]]; discriminate|reflexivity]. Qed.
+
+(* live_never_recorded_revoked / revocation_never_again: the premises are satisfiable — the run that
+   accepts A's revocation leaves a tombstone (or, with a failing tombstone write, a marker) and B live *)
+Example ex_recorded_revoked :
+  let s1 := step tag_inj sA (ERun 10%Z (rev_fetch tag_inj) no_faults) in
+  let s2 := step tag_inj sA (ERun 10%Z (rev_fetch tag_inj) (mk_faults false TROk true false)) in
+  durable 1 (s_disk s1) /\ s_live s1 = [kB] /\ durable 1 (s_disk s2) /\ s_live s2 = [kB].
+Proof.
+  split; [|split; [vm_compute; reflexivity|split; [|vm_compute; reflexivity]]].
+  - left. eexists. split; [vm_compute; reflexivity|]. vm_compute. reflexivity.
+  - right. eexists. split; [vm_compute; reflexivity|]. exists (tag_inj kA), (mk_ta kA SRevoked 10%Z). vm_compute. auto.
+Qed.
